@@ -18,6 +18,7 @@ Record case := mkcase {
   c_forest : list wrapper;                    (* flattened wrappers after set-up, with ALL dataclass fields *)
   c_fields_obs : list (list string);          (* per wrapper: the dests of wrapper.fields *)
   c_gen_obs : list string;                    (* dests of the actions set-up added *)
+  c_defaults_obs : option (list string);      (* keys of parser._defaults after the parse (None: set-up did not finish) *)
   c_installed_obs : option bool;              (* parents given: are their actions among the parser's at parse time *)
   c_oracle : res (nsp * list string);         (* argparse.ArgumentParser(parents=..) + declarations + stand-ins: the oracle *)
   (* argparse's parse_known_args on the program AS simple_parsing REGISTERED IT (groups with the settings its groups
@@ -30,7 +31,7 @@ Record case := mkcase {
 }.
 
 Definition akind_eqb (a b : akind) : bool :=
-  match a, b with KOpt, KOpt | KPos, KPos | KDefault, KDefault => true | _, _ => false end.
+  match a, b with KOpt, KOpt | KPos, KPos | KDefault, KDefault | KRouted, KRouted => true | _, _ => false end.
 Definition action_eqb (a b : action) : bool := String.eqb (a_dest a) (a_dest b) && akind_eqb (a_kind a) (a_kind b).
 
 (* argparse, as observed: the answer that belongs to the action list the model asks about *)
@@ -51,6 +52,9 @@ Definition in_scope (c : case) : bool := true.
 Definition model_ok (c : case) : bool :=
   list_eqb strs_eqb (map (fun w => map f_dest (w_fields_gen w)) c.(c_forest)) c.(c_fields_obs)
   && strs_eqb (reg_dests_gen c.(c_forest)) c.(c_gen_obs)
+  && match c.(c_defaults_obs) with
+     | Some ks => strs_seteq (default_keys_gen (sp_actions parents_site_gen c.(c_parents) c.(c_plain) (generated_gen c.(c_forest)))) ks
+     | None => true end
   && match c.(c_installed_obs) with Some b => Bool.eqb parents_installed_gen b | None => true end
   && res_eqb run_eqb ((if c.(c_args) then sp_parse_args_gen else sp_known_gen)
                         (AP_obs c) c.(c_pre) c.(c_parents) c.(c_plain) c.(c_forest) []) c.(c_sp)
@@ -58,6 +62,6 @@ Definition model_ok (c : case) : bool :=
                          && gset_eqb (ap_group g.(gc_parser) g.(gc_over)) g.(gc_twin)) c.(c_groups).
 
 Definition spec_ok (c : case) : bool :=
-  spec_run (map a_dest (c.(c_parents) ++ c.(c_plain))) c.(c_gen_obs) (top_dests c.(c_forest)) (sup_top_dests c.(c_forest)) (has_subgroups c.(c_forest))
+  spec_run (map a_dest (filter (fun a => negb (akind_eqb (a_kind a) KRouted)) (c.(c_parents) ++ c.(c_plain)))) c.(c_gen_obs) (top_dests c.(c_forest)) (sup_top_dests c.(c_forest)) (has_subgroups c.(c_forest))
            c.(c_oracle) c.(c_sp)
   && forallb (fun g => gset_eqb g.(gc_sp) g.(gc_twin)) c.(c_groups).
